@@ -17,6 +17,12 @@ E1 only (exploration).  Sub-checks (names usable with --only):
              (thorough also {c, c2 in S5, extension of c}); Basis in every order (the larger
              thorough families: sorted/reversed/rotations), from_iterable, Av(...).basis and
              MeshBasis must consist of exactly the reference minimal elements
+  pressure   cache pressure (history at scale): six classes with computed levels are held while
+             2**16 + 4464 (thorough 2**17 + 8928) distinct other classes are constructed, in two
+             streams (classical pairs of S6; classical pairs alternating with one-element mesh
+             bases over S6/S7), each in its own forked worker; at every N = 2**k - 1, 2**k,
+             2**k + 1 (k >= 4) and at the end the held classes are asked for again along 5-7
+             routes: same object, same level cache, same counts
   longtext   text forms of longer patterns (all of S5, S6 (thorough), strided S7..S10) alone and
              next to a short pattern.
   iterator   the same collections handed over as one-shot iterators (known finding, see
@@ -746,6 +752,154 @@ def shard_minimal(shard):
 
 
 # --------------------------------------------------------------------------------------------
+# cache pressure: class objects held while very many OTHER classes are constructed
+# --------------------------------------------------------------------------------------------
+# History dimension at scale: hold class objects (with computed levels), construct N distinct
+# other classes with N crossing every power of two up to 2**16 (thorough 2**17) plus a margin,
+# and at every crossing ask again for the held classes along several routes.
+
+PRESSURE_HELD = [
+    # (description, pattern specs, text or None)
+    [["perm", [0, 1, 2]]],
+    [["perm", [0, 2, 1]], ["perm", [0, 1, 2, 3]]],
+    [["perm", [1, 0]], ["perm", [0, 1, 2]], ["perm", [3, 1, 2, 0]]],
+    [["mesh", [0, 1], [[1, 1]]]],
+    [["vinc", [0, 1], [1]], ["perm", [2, 1, 0]]],
+    [["biv", [1, 0], [0], [2]], ["mesh", [0], [[0, 0]]], ["covinc", [0, 1], [1]]],
+]
+
+
+def pressure_others(stream):
+    """An endless-enough supply of pairwise distinct bases, none equal to a held one.
+    "classical": Basis(p, q) for all pairs p < q of S6 in lexicographic order (259,080).
+    "mixed": alternately Basis(p, q) for the pairs of S6 in REVERSE order and one-element
+    MeshBasis(<p, {c}>) for p in S6 then S7 and every cell c."""
+    L = lib()
+    s6 = R.perms(6)
+    if stream == "classical":
+        for a, b in itertools.combinations(s6, 2):
+            yield lambda a=a, b=b: L.Basis(L.Perm(a), L.Perm(b))
+        return
+
+    def meshes():
+        for n in (6, 7):
+            for p in itertools.permutations(range(n)):
+                for c in R.all_cells(n):
+                    yield lambda p=p, c=c: L.MeshBasis(L.MeshPatt(L.Perm(p), [c]))
+    rev = itertools.combinations(s6[::-1], 2)
+    for (a, b), m in zip(rev, meshes()):
+        yield lambda a=a, b=b: L.Basis(L.Perm(a), L.Perm(b))
+        yield m
+
+
+def pressure_checkpoints(limit_pow, margin):
+    pts = set()
+    for k in range(4, limit_pow + 1):
+        pts.update((2 ** k - 1, 2 ** k, 2 ** k + 1))
+    pts.add(2 ** limit_pow + margin)
+    return sorted(pts)
+
+
+def run_pressure(part, stream, limit_pow, margin, stop_at=None):
+    L = lib()
+    fresh_class_cache()
+    held = []
+    case0 = {"stream": stream, "limit_pow": limit_pow, "margin": margin}
+    for specs in PRESSURE_HELD:
+        classical = all(F.is_classical(sp) for sp in specs)
+        objs = [build(sp) for sp in specs]
+        av = L.Av(list(objs))
+        counts = [av.count(k) for k in range(5)]
+        level3 = sorted(av.of_length(3))
+        held.append({"specs": specs, "classical": classical, "av": av, "counts": counts,
+                     "level3": level3, "ncache": len(av.cache), "cache": av.cache,
+                     "basis_hash": hash(av.basis)})
+
+    def routes(h):
+        objs = [build(sp) for sp in h["specs"]]
+        kind = L.Basis if h["classical"] else L.MeshBasis
+        out = [("Av(list reversed)", lambda: L.Av(objs[::-1])),
+               ("Av.from_iterable(tuple)", lambda: L.Av.from_iterable(tuple(objs))),
+               ("Av(basis)", lambda: L.Av(kind(*objs))),
+               ("Av(iterator)", lambda: L.Av(iter(objs))),
+               ("Av(repeated)", lambda: L.Av(objs + objs[:1]))]
+        if h["classical"]:
+            ps = [tuple(sp[1]) for sp in h["specs"]]
+            out.append(("Av.from_string(0-based)",
+                        lambda: L.Av.from_string(" ".join(F.text0(q) for q in ps))))
+            out.append(("Av.from_string(1-based, reversed)",
+                        lambda: L.Av.from_string(",".join(F.text1(q) for q in ps[::-1]))))
+        return out
+
+    def recheck(n, kept):
+        evals = 0
+        for hi, h in enumerate(held):
+            for name, f in routes(h):
+                case = dict(case0, n_others=n, held=h["specs"], route=name)
+                evals += 1
+                try:
+                    av = f()
+                    if av is not h["av"]:
+                        part.violation("pressure:identity", case,
+                                       {"same_object": False, "equal": av == h["av"],
+                                        "levels_in_returned_object": len(av.cache),
+                                        "levels_computed_before": h["ncache"]})
+                        continue
+                    if av.cache is not h["cache"] or len(av.cache) < h["ncache"] or \
+                            hash(av.basis) != h["basis_hash"] or \
+                            [av.count(k) for k in range(5)] != h["counts"] or \
+                            sorted(av.of_length(3)) != h["level3"]:
+                        part.violation("pressure:state", case,
+                                       {"levels": len(av.cache), "levels_before": h["ncache"],
+                                        "counts": [av.count(k) for k in range(5)],
+                                        "counts_before": h["counts"]})
+                except Exception as exc:  # noqa
+                    part.violation("pressure:exception", case, {"exception": repr(exc)})
+        for k, (mk, obj) in kept:
+            evals += 1
+            case = dict(case0, n_others=n, other_number=k)
+            try:
+                if L.Av(mk()) is not obj:
+                    part.violation("pressure:identity", case, {"same_object": False})
+            except Exception as exc:  # noqa
+                part.violation("pressure:exception", case, {"exception": repr(exc)})
+        return evals
+
+    pts = pressure_checkpoints(limit_pow, margin)
+    if stop_at is not None:
+        pts = [q for q in pts if q <= stop_at]
+    last = pts[-1]
+    ptset = set(pts)
+    kept = []
+    evals = recheck(0, kept)
+    n = 0
+    for mk in pressure_others(stream):
+        obj = L.Av(mk())
+        n += 1
+        if n in ptset:
+            kept.append((n, (mk, obj)))
+            evals += recheck(n, kept)
+            part.bump("pressure_checkpoints")
+        if n >= last:
+            break
+    if n < last:
+        raise RuntimeError("supply of other bases exhausted at %d" % n)
+    part.bump("pressure_other_classes_constructed", n)
+    return evals, len(pts)
+
+
+def shard_pressure(shard):
+    stream, limit_pow, margin = shard
+    part = Partial()
+    evals, npts = run_pressure(part, stream, limit_pow, margin)
+    part.add(evals, evals)
+    part.sample({"stream": stream, "held_classes": len(PRESSURE_HELD),
+                 "other_classes": 2 ** limit_pow + margin, "checkpoints": npts}, cap=1)
+    fresh_class_cache()
+    return part
+
+
+# --------------------------------------------------------------------------------------------
 # one-shot iterators (known finding)
 # --------------------------------------------------------------------------------------------
 
@@ -903,6 +1057,20 @@ def run(ctx, only=None):
             ctx.section("minimal", family=name, sets=info[name]["sets"],
                         evaluations=ctx.evals - e0)
         ctx.bounds["minimal"] = {"families": info, "definition": minimal_family.__doc__}
+    if want("pressure"):
+        e0 = ctx.evals
+        limit_pow, margin = (16, 4464) if quick else (17, 8928)
+        # two streams = two forked workers; the big class caches die with them
+        ctx.pmap(shard_pressure, [("classical", limit_pow, margin), ("mixed", limit_pow, margin)])
+        ctx.bounds["pressure"] = {
+            "held_classes": len(PRESSURE_HELD), "streams": ["classical", "mixed"],
+            "other_classes_per_stream": 2 ** limit_pow + margin,
+            "checkpoints": pressure_checkpoints(limit_pow, margin),
+            "at_each_checkpoint": "every held class asked for again along 5 (mesh) / 7 "
+                                  "(classical) routes: same object, same level cache, same "
+                                  "counts; the classes constructed at earlier checkpoints too"}
+        ctx.section("pressure", other_classes=2 * (2 ** limit_pow + margin),
+                    evaluations=ctx.evals - e0)
     if want("longtext"):
         e0 = ctx.evals
         longs = list(R.perms(5))
@@ -972,6 +1140,9 @@ def replay(ctx, rec):
     elif sub.startswith("classical:"):
         pset = tuple(tuple(p) for p in case["patterns"])
         check_classical_set(ctx, pset, profiles(7), "full" if len(pset) <= 2 else "short")
+    elif sub.startswith("pressure:"):
+        run_pressure(ctx, case["stream"], case["limit_pow"], case["margin"],
+                     stop_at=case["n_others"])
     elif sub.startswith("minimal:"):
         pset = tuple(tuple(p) for p in case["patterns"])
         check_minimal_set(ctx, pset, case.get("orders", "all"), True)
